@@ -93,8 +93,18 @@ pub const FUEL: u64 = 30_000;
 pub const DEPTH: u32 = 400;
 pub const MAXLEN: usize = 1 << 16;
 
+thread_local! {
+    static FUEL_NOW: std::cell::Cell<u64> = const { std::cell::Cell::new(FUEL) };
+}
+
+/// the fuel `default_budget` hands out on this thread from now on (generated programs with an effect
+/// log get less: the log is copied on every tick, so a runaway program costs fuel squared)
+pub fn set_thread_fuel(fuel: u64) {
+    FUEL_NOW.with(|f| f.set(fuel));
+}
+
 pub fn default_budget() {
-    verif::set_budget(FUEL, DEPTH, MAXLEN);
+    verif::set_budget(FUEL_NOW.with(|f| f.get()), DEPTH, MAXLEN);
 }
 
 /// variant name of an `Error` / `ExecError`
